@@ -377,9 +377,10 @@ class Builder(object):
       res = '(Raise %s)' % slit(type(e).__name__)
     self.t['zone_known'][lit] = (lit, res)
 
-  def collect(self, v, zones=(), depth=0):
+  def collect(self, v, zones=(), depth=0, encode_only=False):
     """Record what the library answers about v and everything inside it. zones: zone names of the column
-    types the value will be converted with."""
+    types the value will be converted with. encode_only: the caller only runs encode_object on v, which never asks
+    for str()/repr() of a list, tuple or str-keyed dict (keeps the tables of deeply nested values linear)."""
     o, r = self.objtypes, self.records
     lit = self.val(v)
     key = ('v', lit, tuple(zones))
@@ -388,7 +389,10 @@ class Builder(object):
     self.seen.add(key)
     t = type(v)
     prim = v is None or t is bool or isinstance(v, (int, float, str)) or t is o.AltText
-    if not prim:
+    quiet = encode_only and (t in (list, tuple, o.RecordList) or (t is dict and all(isinstance(k, str) for k in v)))
+    if quiet:
+      pass
+    elif not prim:
       for name, fn in (('str', str), ('repr', repr)):
         try:
           s = fn(v)
@@ -427,11 +431,11 @@ class Builder(object):
       self.t['float_of_bytes'][b] = (zl(list(b)), opt(f, flit))
     elif t in (list, tuple, set, o.RecordList):
       for x in v:
-        self.collect(x, zones, depth + 1)
+        self.collect(x, zones, depth + 1, encode_only)
     elif t is dict:
       for k, x in v.items():
-        self.collect(k, zones, depth + 1)
-        self.collect(x, zones, depth + 1)
+        self.collect(k, zones, depth + 1, encode_only)
+        self.collect(x, zones, depth + 1, encode_only)
     elif t is datetime.datetime:
       naive = v.replace(tzinfo=None)
       if isinstance(v.tzinfo, self.moment.TzInfo):
@@ -444,15 +448,15 @@ class Builder(object):
         self.add_ts_offset(z, (v - EPOCH.date()).days * 86400 * 10 ** 6)
     elif isinstance(v, r.RecordSet):
       for rec in v:
-        self.collect(rec, zones, depth + 1)
+        self.collect(rec, zones, depth + 1, encode_only)
     elif t is o.RaisedException:
       for x in (v._name, v._message, v.details):
-        self.collect(x, zones, depth + 1)
+        self.collect(x, zones, depth + 1, encode_only)
       if v.user_input is not o.RaisedException.NO_INPUT:
-        self.collect(v.user_input, zones, depth + 1)
+        self.collect(v.user_input, zones, depth + 1, encode_only)
     elif t in (o.RecordStub, o.RecordSetStub, o.ReferenceLookup, o.UnmarshallableValue):
       for x in vars(v).values():
-        self.collect(x, zones, depth + 1)
+        self.collect(x, zones, depth + 1, encode_only)
     elif lit.startswith('(POpaque'):
       i = self.opaque_id(v)
       try:
@@ -472,7 +476,7 @@ class Builder(object):
         items = None
       if items is not None:
         for x in items:
-          self.collect(x, zones, depth + 1)
+          self.collect(x, zones, depth + 1, encode_only)
       self.t['iter'][i] = (Z(i), opt(items, self.vals))
 
   def tables(self, need=None):
